@@ -87,7 +87,7 @@ Qed.
 Lemma g_integer_digits : forall d r,
   all_digits d = true -> d <> "" -> no_digit_head r -> g_integer (d ++ r) = Some r.
 Proof.
-  intros d r Hd Hne Hr. unfold g_integer, p_seq.
+  intros d r Hd Hne Hr. unfold g_integer, p_seq. change (p_opt (p_lit "+" </> p_lit "-")) with g_sign.
   destruct d as [|c d]; [congruence|]. simpl in Hd. pose proof Hd as Hd'. apply andb_prop in Hd. destruct Hd as [Hc Hd].
   change (String c d ++ r) with (String c (d ++ r)). rewrite (g_sign_digit c (d ++ r) Hc).
   change (String c (d ++ r)) with (String c d ++ r). apply p_plus_digits; auto.
@@ -114,7 +114,7 @@ Proof. intros c H. now destruct (digit_facts c H) as (_&_&_&_&_&_&_&E&_). Qed.
 Lemma g_binary_number_plain : forall d r,
   all_digits d = true -> d <> "" -> dot_or_end r -> g_binary_number (d ++ r) = None.
 Proof.
-  intros d r Hd Hne Hr. unfold g_binary_number, p_seq.
+  intros d r Hd Hne Hr. unfold g_binary_number, p_seq. change (p_opt (p_lit "+" </> p_lit "-")) with g_sign.
   assert (Hs : g_sign (d ++ r) = Some (d ++ r)).
   { destruct d as [|c d']; [congruence|]. simpl in Hd. apply andb_prop in Hd.
     apply (g_sign_digit c (d' ++ r)). tauto. }
@@ -124,7 +124,7 @@ Qed.
 Lemma g_hex_number_plain : forall d r,
   all_digits d = true -> d <> "" -> dot_or_end r -> g_hex_number (d ++ r) = None.
 Proof.
-  intros d r Hd Hne Hr. unfold g_hex_number, p_seq.
+  intros d r Hd Hne Hr. unfold g_hex_number, p_seq. change (p_opt (p_lit "+" </> p_lit "-")) with g_sign.
   assert (Hs : g_sign (d ++ r) = Some (d ++ r)).
   { destruct d as [|c d']; [congruence|]. simpl in Hd. apply andb_prop in Hd.
     apply (g_sign_digit c (d' ++ r)). tauto. }
